@@ -218,6 +218,17 @@ def build3(w):
                        invariant=kept(T_, OT, 'i') + ['heap_same_except("Tx._savepoints", self._current_tx)', 'len(%s) >= 0' % T_]),
                1: dict(fingerprint='for id in tuple(self._savepoints_log)', index='i',
                        invariant=kept(L_, OL, 'i') + ['heap_same_except("CS._savepoints_log", self)'])})
+    # second view of sync_to_savepoint, quantifier-free: one arbitrary savepoint id K followed through both clean-up loops (a wrong bound is refuted with a definite counter-model)
+    def kept_g(cur, old_, bound):
+        return ['(K in %s) == ((K in %s) and (K <= spid or opos(%s, K) >= %s))' % (cur, old_, old_, bound), 'implies(K in %s, oval(%s, K) == oval(%s, K))' % (cur, cur, old_)]
+    w.contract(DB, 'CompilerConnectionState.sync_to_savepoint', view='ground', params={'self': 'CS', 'spid': 'int'}, returns='none', ghost={'K': 'int'},
+        modifies=['CS._current_tx', 'CS._savepoints_log', 'Tx._current', 'Tx._id', 'Tx._savepoints'],
+        ensures=['(K in %s) == ((K in %s) and K <= spid)' % (T_, OT), 'implies(K in %s, oval(%s, K) == oval(%s, K))' % (T_, T_, OT),
+                 '(K in %s) == ((K in %s) and K <= spid)' % (L_, OL), 'implies(K in %s, oval(%s, K) == oval(%s, K))' % (L_, L_, OL)],
+        # (that the pops never raise KeyError is proved in the quantified view; one tracked key cannot show it)
+        raises={'RuntimeError': dict(only_if='not (spid in self._savepoints_log)'), 'KeyError': {}},
+        loops={0: dict(fingerprint='for id in tuple(self._current_tx._savepoints)', index='i', invariant=kept_g(T_, OT, 'i') + ['heap_same_except("Tx._savepoints", self._current_tx)', 'len(%s) >= 0' % T_]),
+               1: dict(fingerprint='for id in tuple(self._savepoints_log)', index='i', invariant=kept_g(L_, OL, 'i') + ['heap_same_except("CS._savepoints_log", self)'] + kept_g(T_, OT, 'len(%s)' % OT)[:0])})
     w.contract(DB, 'CompilerConnectionState.sync_tx', params={'self': 'CS', 'txid': 'int'}, returns='none',
         modifies=['CS._current_tx', 'CS._savepoints_log', 'Tx._current', 'Tx._id', 'Tx._savepoints'],
         ensures=[
